@@ -117,7 +117,12 @@ def run(pid, tier, seed, findings, prefix, replay_scenario=None):
                                      "scenario": sc, "trace": [json.loads(x) for x in b][:300]})
             which = "poll()-based communicator on real pipes" if sc.get("impl") == "unix" else "thread-based communicator"
             new.append(("%s fired in exchange %s of the %s (%s)" % (v, res["id"], which, sig), path))
-    info = {"exchanges": len(results), "nontrivial": len(nontrivial), "trace_validation_states": tv_states,
+    info = {"exchanges": len(results),
+            "of_the_thread_based_communicator": sum(1 for x in scs if x.get("impl") != "unix"),
+            "of_the_poll_based_communicator_on_real_pipes": sum(1 for x in scs if x.get("impl") == "unix"),
+            "rule": "one exchange = one scenario (scripted child, sequence of read() calls) run on the real kernel and "
+                    "validated by TLC against CommApiTrace.tla; real time, slack 700 ms / 600 ms",
+            "nontrivial": len(nontrivial), "trace_validation_states": tv_states,
             "replay_note": note,
             "sample": [json.loads(x) for x in blocks[0][:8]] if blocks else []}
     return mc, new, known_hits, others, info
